@@ -2234,7 +2234,12 @@ func (e *c05Env) genHist(r *vf.Rand) c05Hist {
 			}
 		}
 
-		switch y := r.Intn(100); {
+		y := r.Intn(100)
+		if _, rotated := prev[id+"/"+kid]; rotated && r.Chance(45) {
+			y = 90 // after a rotation: prefer the key that was rotated out
+		}
+
+		switch {
 		case y < 50:
 		case y < 82: // the key another tenant publishes under the same kid
 			for _, other := range c05Tenants {
